@@ -267,6 +267,25 @@ func totalRun(args []string) error {
 			c.measure(draft, "record size "+fmt.Sprint(v), in, func() error { return parsers[draft](in) })
 		}
 	}
+	// (2b) MI record sizes at the top of the 64-bit range TOGETHER WITH a digest that vouches for the bytes that follow (a
+	// record-size field alone is stopped by the first proof check; a stream whose author computed the proof over what a
+	// wrapped buffer size would read passes it): sizes 2^64-40 .. 2^64-1, the k = size+32 mod 2^64 bytes after the field
+	// hashed as a non-final and as a final record
+	for d := uint64(1); d <= 40; d++ {
+		v := -d // 2^64 - d
+		k := int((v + 32) & 63)
+		rest := bytes.Repeat([]byte{0x5a}, 64)
+		for _, fin := range []byte{1, 0} {
+			for _, kk := range []int{k, 0, 32} {
+				h := sha256.Sum256(append(append([]byte{}, rest[:kk]...), fin))
+				in := append(append(append([]byte{}, h[:]...), be8(v)...), rest...)
+				for _, draft := range []string{"mice.Decode03", "mice.Decode02"} {
+					draft := draft
+					c.measure(draft, fmt.Sprintf("record size 2^64-%d with a matching proof over %d bytes", d, kk), in, func() error { return parsers[draft](in) })
+				}
+			}
+		}
+	}
 	// (3) long structured-header inputs and random / mutated files
 	for _, n := range []int{1000, 100000} {
 		for _, s := range []string{"a;", "\"", "*", "a, ", "1;", "a;b=\"x\";", " "} {
